@@ -97,7 +97,12 @@ func (p *c19) history(i int) c19history {
 	h.files["imports-broken"] = "{% import 'broken-parse' as b %}{{ b.m() }}"
 	h.files["runtime-fail"] = "a {{ nofunc() }} b"
 	h.files["many"] = "{% for i in 1..3 %}{% include 'part2' %}{% include 'broken-lex' %}{% endfor %}"
-	names := []string{"main", "part1", "part2", "layout", "macros", "base0", "broken-lex", "broken-parse", "includes-broken", "extends-broken", "imports-broken", "runtime-fail", "many", "no-such-template"}
+	// names that can be opened but not read as a file: a directory, and the empty name (the root itself)
+	h.files["subdir/inner"] = "inner {{ x }}"
+	h.files["includes-dir"] = "a {% include 'subdir' %} b"
+	h.files["includes-empty"] = "a {% include undefinedname %} b"
+	h.files["extends-dir"] = "{% extends 'subdir' %}"
+	names := []string{"main", "part1", "part2", "layout", "macros", "base0", "broken-lex", "broken-parse", "includes-broken", "extends-broken", "imports-broken", "runtime-fail", "many", "no-such-template", "subdir", "", "includes-dir", "includes-empty", "extends-dir", "subdir/inner"}
 	n := 1 + r.Intn(p.pick(50, 200))
 	for k := 0; k < n; k++ {
 		ld := []string{"string", "memory", "fs", "fs"}[r.Intn(4)]
@@ -141,6 +146,9 @@ func (p *c19) Run(i int) (res fw.Result) {
 	}
 	defer os.RemoveAll(dir)
 	for n, s := range h.files {
+		if err := os.MkdirAll(filepath.Dir(filepath.Join(dir, n)), 0o755); err != nil {
+			panic(err)
+		}
 		if err := os.WriteFile(filepath.Join(dir, n), []byte(s), 0o644); err != nil {
 			panic(err)
 		}
@@ -253,7 +261,7 @@ func uniqStrings(xs []string) []string {
 }
 
 func (p *c19) Rule() string {
-	return "histories of calls, census after EVERY call: (1) exhaustive: every corpus template with one syntax error (illegal character, unknown tag, surplus literal, stray delimiter, lone quote or parenthesis) injected at every fragment boundary (every third boundary in quick), 25 calls per history, rotating over the string, memory and filesystem loaders, Parse and Execute, core and Twig environments - so the parser stops with 0..n tokens still to come; (2) seeded histories of 1..50 (quick) / 1..200 (thorough) calls over generated programs (include/embed/extends/import across files, so one call opens several files), templates that fail in the tokeniser or in the parser, templates that include/extend/import a broken template, run-time failures and missing templates. The filesystem loader works on a directory the check creates and removes. Monitors: goroutine census (runtime.Stack(all), goroutines with a library frame, by state and top frame) after a bounded settling loop, the live-tokeniser gauge of the verif hook, and /proc/self/fd compared with the set before the history, with garbage collection disabled during the history so that a finalizer cannot hide a missing Close. Non-trivial = history with at least one failing call; injected histories are distinct by construction, random ones by (loader:outcome set, length)."
+	return "histories of calls, census after EVERY call: (1) exhaustive: every corpus template with one syntax error (illegal character, unknown tag, surplus literal, stray delimiter, lone quote or parenthesis) injected at every fragment boundary (every third boundary in quick), 25 calls per history, rotating over the string, memory and filesystem loaders, Parse and Execute, core and Twig environments - so the parser stops with 0..n tokens still to come; (2) seeded histories of 1..50 (quick) / 1..200 (thorough) calls over generated programs (include/embed/extends/import across files, so one call opens several files), templates that fail in the tokeniser or in the parser, templates that include/extend/import a broken template, run-time failures, missing templates, and names that can be opened but not read (a directory, the empty name), directly and through include/extends. The filesystem loader works on a directory the check creates and removes. Monitors: goroutine census (runtime.Stack(all), goroutines with a library frame, by state and top frame) after a bounded settling loop, the live-tokeniser gauge of the verif hook, and /proc/self/fd compared with the set before the history, with garbage collection disabled during the history so that a finalizer cannot hide a missing Close. Non-trivial = history with at least one failing call; injected histories are distinct by construction, random ones by (loader:outcome set, length)."
 }
 
 func (p *c19) Assumptions() []string {
